@@ -25,6 +25,7 @@ REQUIRED = [
     'Ems.C06.pipelines_translated', 'Ems.C06.pipeline_eval_get',
     'Ems.C06.cf1d_pipeline_spec', 'Ems.C06.cf2d_pipeline_spec', 'Ems.C06.arakawa_pipeline_spec',
     'Ems.C06.cf1d_midbounds_pipeline_spec', 'Ems.C06.cf1d_asserts_hold', 'Ems.C06.cf1d_centres_pipeline_spec',
+    'Ems.C06.cf2d_derived_pipeline_spec', 'Ems.C06.cf2d_derived_shape', 'Ems.C06.cf2d_derived_get',
 ]
 RULE = ('datasets of every convention from the recipe generator: CF 1-D axes ascending / descending / non-uniform, '
         'with stored bounds (contiguous or gapped, the four axis directions in turn) and without, coordinates and bounds as xarray '
@@ -51,10 +52,14 @@ RULE = ('datasets of every convention from the recipe generator: CF 1-D axes asc
         'expression language (harness/pipelines.py -> Gen/Pipelines.lean); for every CF 1-D, CF 2-D / SHOC simple with stored bounds and '
         'SHOC standard dataset generated, the generated term is evaluated in the driver on the generator\'s ground-truth bounds / node '
         'arrays (`pipe` operations) and compared with ds.ems.polygons (vertex lists, mask, bounds, warning), topology.*_bounds and '
-        'face_centres of the running code.')
-TRUSTED = ['GEOS is_valid / unary_union / equals; numpy nanmean, pad (derived 2-D bounds)',
-           'numpy stack / expand_dims / broadcast_to / transpose / basic indexing / reshape / concatenate follow the positional C-order '
-           'semantics given to them in Core/NpExpr.lean (cross-checked by the `pipe` operations on every generated dataset)',
+        'face_centres of the running code. The derived-bounds branch of CFGrid2DTopology._get_or_make_bounds (isnan / pad / & | / masked '
+        'assignment / nanmean / any) is translated the same way; for every CF 2-D / SHOC simple dataset without stored bounds the generated '
+        'term is evaluated on the ground-truth centre coordinates of either axis (`pipe cf2dderived`) and compared, value by value and NaN '
+        'by NaN, with topology.longitude_bounds.values / latitude_bounds.values of the running code.')
+TRUSTED = ['GEOS is_valid / unary_union / equals',
+           'numpy stack / expand_dims / broadcast_to / transpose / basic indexing / reshape / concatenate / isnan / pad / & | / '
+           'boolean-mask assignment / nanmean / any(axis) follow the positional C-order semantics given to them in Core/NpExpr.lean '
+           '(cross-checked by the `pipe` operations on every generated dataset)',
            'the source translator harness/pipelines.py (Python ast -> NpExpr): part of the trusted base; what it cannot render becomes '
            'NpExpr.unsupported and breaks Ems.C06.pipelines_translated; its output is validated against the running code on every run']
 TECHNIQUE = ('Lean 4 proof over a model that is partly translated from the source on every run (the numpy pipelines of the polygon '
@@ -63,8 +68,9 @@ LEVEL_NOTE = ('GEOS is_valid enters as a truth table (and is compared with an ex
               'both sides of the geometry oracle; bounds are compared where every stored bound / node belongs to a kept polygon. '
               'The *_pipeline_spec theorems are about terms regenerated from the source text on every run, for all grid sizes: the '
               'stack / broadcast_to / transpose / reshape pipelines refine the comprehension models the other theorems are about. '
-              'Not translated (still hand-modelled + correspondence only): the derived-bounds branch of CFGrid2DTopology (nanmean / pad) '
-              'and UGrid._make_polygons. '
+              'cf2d_derived_pipeline_spec does the same for the derived-bounds branch of CFGrid2DTopology._get_or_make_bounds (the generated '
+              'term computes derived2d for every ny x nx array of centres, NaNs included). '
+              'Not translated (still hand-modelled + correspondence only): UGrid._make_polygons. '
               'Trusted: Lean kernel (axioms propext, Quot.sound, Classical.choice), the hand-written model and the semantics of the numpy '
               'expression language, the harness (generators, canonicalisers, driver parser, the source translator harness/pipelines.py), '
               'numpy/xarray/shapely behaviour taken as parameters.')
@@ -145,6 +151,8 @@ def examine(ctx, recipe: dict, items: list) -> None:
         ctx.count(f'pipeline:{pl.split()[1]}')
     if conv == 'cf1d' and c is not None:
         pipeline_extras(ctx, recipe, built, c, items)
+    if conv in ('cf2d', 'shoc_simple') and built.extra.get('corners') is None and c is not None:
+        derived_bounds_items(ctx, recipe, built, c, items)
     nontrivial = (any(q is None for q in raw) or any_invalid or recipe.get('bounds') == 'none'
                   or conv == 'ugrid' or recipe.get('coords_as') == 'vars' or recipe.get('bounds_as') == 'coords'
                   or recipe.get('enc', {}).get('coords_as') == 'coords' or recipe.get('grow')
@@ -323,6 +331,22 @@ def pipeline_extras(ctx, recipe: dict, built, c, items: list) -> None:
     except Exception:
         cout = 'ERR'
     items.append((cl, cout, {'recipe': recipe, 'op': cl}))
+
+
+def derived_bounds_items(ctx, recipe: dict, built, c, items: list) -> None:
+    """CF 2-D / SHOC simple without stored bounds: the bounds arrays the running topology derives vs the pipeline translated
+    from the source of CFGrid2DTopology._get_or_make_bounds, run on the generator's centre coordinates (NaN as `-`)"""
+    ny, nx = recipe['ny'], recipe['nx']
+    for key, attr in (('cx', 'longitude_bounds'), ('cy', 'latitude_bounds')):
+        dl = f"pipe cf2dderived ny={ny} nx={nx} vals={S.nums(v for row in built.extra[key] for v in row)}"
+        try:
+            a = np.asarray(getattr(c.topology, attr).values)
+            dout = ','.join(str(d) for d in a.shape) + ':' + ','.join(
+                '-' if np.isnan(v) else S.num(Fraction(float(v))) for v in a.ravel())
+        except Exception:
+            dout = 'ERR'
+        items.append((dl, dout, {'recipe': recipe, 'op': dl}))
+    ctx.count('pipeline:cf2dderived')
 
 
 def run(ctx) -> None:
